@@ -71,11 +71,22 @@ def classify(line, out):
 
 RULE = ('all interleavings (at the yield points: exchange, link, notify, drain, pop, idle check) of 1 producer x 1 push with 0..6 consumer steps and of 1 producer x 2 pushes with 5 (thorough: 8) consumer steps, '
         'thorough also 2 producers x 1 push; seeded schedules for 1..3 producers x 1..3 pushes; each schedule is replayed on the REAL mailbox.h under the cooperative scheduler and on the model; '
-        'per-thread yield-label sequences, popped order, items left and pending notification compared; the transport\'s consumer loop (handleWriteQueue, one notification for several entries) on a live endpoint with entries that are dropped in front of / between entries that must be delivered. non-trivial = distinct (configuration, schedule prefix, observation)')
+        'per-thread yield-label sequences, popped order, items left and pending notification compared; pushes injected right before the consumer\'s k-th read(2) of the eventfd (system-call boundary, no hook needed); the transport\'s consumer loop (handleWriteQueue, one notification for several entries) on a live endpoint with entries that are dropped in front of / between entries that must be delivered. non-trivial = distinct (configuration, schedule prefix, observation)')
 ASSUME = ['sequentially consistent memory at the granularity of the yield hooks (one thread runs at a time)', 'eventfd semantics: write adds, a read resets to zero, poll reports counter > 0',
           'after the scripted schedule the producers run to completion and the consumer handles every pending wake-up; anything then left queued is a missed wake-up']
 
 DRAIN_LINES = ['wr F d5,m40 -', 'wr F d5,d6,m40,m10 -', 'wr FFL m10,d7,m30 -', 'wr LFF d1,m20,f300 5,B,100', 'wr F m8,d3 -', 'wr FLFL d2,m5,d2,m5 -']
+
+def oracle_sys(ln, out):
+    """missed wake-up at the system-call boundary: after the drain loop nothing may be left queued without a pending notification"""
+    if any(x in out for x in ('ASAN', 'UBSAN', 'HANG', 'CRASH', 'TERMINATE', 'MISSING', 'bad-op')): return ('crash', 'implementation aborted/hung: ' + out[:120])
+    f = dict(kv.split('=', 1) for kv in out.split(' ') if '=' in kv)
+    w = ln.split(); n = int(w[2])
+    if int(f.get('left', -1)) > 0 and f.get('wake') == '0':
+        return ('missed-wakeup', '%s item(s) pushed right before the consumer\'s read #%s of the eventfd stayed queued with no notification pending' % (f.get('left'), w[1]))
+    if f.get('injected') == '1' and int(f.get('popped', 0)) + int(f.get('left', 0)) != 1 + n:
+        return ('loss', 'pushed %d items, popped %s, left %s' % (1 + n, f.get('popped'), f.get('left')))
+    return None
 
 def extra(res, lean, drv, tier, rnd):
     """the consumer side in the transport (Transport::handleWriteQueue drains writesQueue after ONE notification): an entry that is
@@ -88,12 +99,18 @@ def extra(res, lean, drv, tier, rnd):
     if tier == 'thorough':
         lines += [l for l in c06.gen('quick', rnd) if ',d' in l or ' d' in l]
     core.kdiff(res, lean, ldrv, lines, oracle=c06.oracle, classify=lambda l, o: ('drain',) + tuple(l.split()[1:3]) + (o.split(' promises=')[0],), tag='drain:', retry=2)
+    # pushes injected right before the consumer's k-th read(2) of the eventfd (schedule forcing without hooks)
+    slines = ['qsys %d %d' % (k, n) for k in range(1, 7) for n in (1, 2, 3)]
+    core.kdiff(res, None, drv, slines, oracle=oracle_sys, classify=lambda l, o: ('qsys',) + tuple(l.split()[1:]) + (o,), tag='qsys:')
 
 def run(tier):
     return core.standard_run(PROP, tier, MODULES, THEOREMS, gen, oracle, classify, RULE, ASSUME, driver=('drv_sched', drivers.SCHED_SOURCES), extra=extra)
 def replay(path):
     import json
     case = json.load(open(path)).get('case') or ''
+    if case.startswith('qsys '):
+        out = core.run_lines(core.build_driver('drv_sched', drivers.SCHED_SOURCES)[0], [case])[0]; d = core.safe_oracle(oracle_sys, case, out)
+        print('case:', case); print('impl:', out); print('oracle:', d or 'holds'); return 1 if d else 0
     if case.startswith('wr '):
         from vlib.props import c06
         ldrv, err = core.build_driver('drv_live', drivers.LIVE_SOURCES)
